@@ -103,11 +103,13 @@ M("c16-slot-fired-last", "C16", [(MDEP, '''        self.__lazy_result_callback()
 R("c16-r-guard-via-property", "C16", [(MSG, '''    async def ack(self) -> None:
         if self.__read_only:''', '''    async def ack(self) -> None:
         if self.read_only:''')])
-R("c16-r-category-is-not", "C16", [(MSG, '''        if self._category != MessageCategory.NORMAL:
+# (was a must-stay-silent entry until two round-5 seeded changes showed the difference: MessageCategory is a str-Enum and a category given as the plain string "NORMAL" / "DELAYED"
+#  is accepted by every other comparison and dispatch table of the clean tree; identity narrows that, equality is part of the decided behaviour - DESIGN 11.5)
+M("c16-category-is-not", ["C16"], [(MSG, '''        if self._category != MessageCategory.NORMAL:
             raise ValueError(f"Can not nack message with category {self._category}.")
 ''', '''        if self._category is not MessageCategory.NORMAL:
             raise ValueError(f"Can not nack message with category {self._category}.")
-''')])
+''')], "R-C16-CATEGORY")
 R("c16-r-budget-not-lt", ["C16", "C04"], [(MSG, "if self.parameters.retries.already_tried >= self.parameters.retries.max_amount:",
                                   "if not self.parameters.retries.already_tried < self.parameters.retries.max_amount:")])
 R("c16-r-budget-locals", ["C16", "C04"], [(MSG, '''        if self.parameters.retries.already_tried >= self.parameters.retries.max_amount:
@@ -127,7 +129,8 @@ R("c16-r-flag-guard-first", "C16", [(MSG, '''        if self._category != Messag
         if self._category != MessageCategory.NORMAL:
             raise ValueError(f"Can not nack message with category {self._category}.")
 ''')])
-R("c16-r-callbacks-snapshot", ["C16", "C13"], [(MDEP, "for callback in self._callbacks:  # execute in order", "for callback in list(self._callbacks):  # execute in order")])
+# (was a must-stay-silent entry until a round-5 seeded change: a callback registered by a running callback is appended to the live list and run by the clean tree's loop; a snapshot drops it - DESIGN 11.5)
+M("c16-callbacks-snapshot", ["C16"], [(MDEP, "for callback in self._callbacks:  # execute in order", "for callback in list(self._callbacks):  # execute in order")], "R-C16-CALLBACKS")
 M("c13-callback-failure-escapes", ["C13"], [(MDEP, "            except Exception:\n                # the message has been already", "            except ValueError:\n                # the message has been already")], "R-C13-EAGER-SAFE")
 
 # ----------------------------------------------------------------------------------------------- C02 / C04 / C06 (processor ladder)
